@@ -34,18 +34,22 @@ Theorem c11_transparent_par :
     = exec_par sh term chain partitions.
 Proof. exact par_transparent. Qed.
 
-(* Runner::run_collect: whatever the configuration (absent, disabled, enabled) and the mode *)
+(* Runner::run_collect: whatever the configuration (absent, disabled, enabled) and the mode -
+   Sequential, Parallel with an explicit partition count, or Parallel{partitions: None}, where the
+   count is resolved from the planner's suggestion and the runner's default IDENTICALLY in the
+   checkpointing and in the plain branch (so partition-sensitive programs agree too) *)
 Theorem c11_transparent_run_collect :
   forall sh readdir H avail pct clock, (Bincode.ckpt_limit <= avail)%Z ->
-  forall mode co fs term chain,
-    fst (run_collect sh readdir H avail pct clock mode co fs term chain) = run_plain sh mode term chain.
+  forall mode suggested default co fs term chain,
+    fst (run_collect sh readdir H avail pct clock mode suggested default co fs term chain)
+    = run_plain sh mode suggested default term chain.
 Proof. exact run_collect_transparent. Qed.
 
 (* an absent or disabled configuration leaves the directory alone (it is not even created) *)
 Theorem c11_disabled_untouched :
-  forall sh readdir H avail pct clock mode co fs term chain,
+  forall sh readdir H avail pct clock mode suggested default co fs term chain,
     match co with Some c => c_enabled c = false | None => True end ->
-    snd (run_collect sh readdir H avail pct clock mode co fs term chain) = fs.
+    snd (run_collect sh readdir H avail pct clock mode suggested default co fs term chain) = fs.
 Proof. exact run_collect_disabled. Qed.
 
 (* ------------------------------------------------------------------ 2. clean-up *)
@@ -94,15 +98,15 @@ Proof. exact every0_writes_nothing. Qed.
    checkpoint-free run returns (in particular it is not failed or aborted by those files). *)
 Theorem c11_recovers :
   forall sh readdir H avail pct clock, (Bincode.ckpt_limit <= avail)%Z ->
-  forall d0 max0 h junk k mode co term chain,
-    let pid := run_pid H mode chain in
+  forall d0 max0 h junk k mode suggested default co term chain,
+    let pid := run_pid H mode suggested default chain in
     let left := saves_of readdir max0 d0 h in
-    fst (run_collect sh readdir H avail pct clock mode co
+    fst (run_collect sh readdir H avail pct clock mode suggested default co
                      (Some (overwrite_latest readdir pid junk left)) term chain)
-    = run_plain sh mode term chain
-    /\ fst (run_collect sh readdir H avail pct clock mode co
+    = run_plain sh mode suggested default term chain
+    /\ fst (run_collect sh readdir H avail pct clock mode suggested default co
                         (Some (truncate_latest readdir pid k left)) term chain)
-       = run_plain sh mode term chain.
+       = run_plain sh mode suggested default term chain.
 Proof. exact recovers. Qed.
 
 (* ------------------------------------------------------------------ 4. the repaired defect *)
@@ -224,15 +228,33 @@ Proof. vm_compute. repeat split; reflexivity. Qed.
 
 (* c11_transparent_run_collect / c11_disabled_untouched / c11_recovers: instances *)
 Example ex_dispatch :
-  run_collect id_sh rev_listing exH ex_avail ex_pct ex_clock XSeq
+  run_collect id_sh rev_listing exH ex_avail ex_pct ex_clock XSeq (Some 16%nat) 32%nat
               (Some (mk_cfg false (Store.TimeInterval 0) true (Some 1))) None ex_term ex_chain
   = (Ok ex_rows, None)
-  /\ fst (run_collect id_sh rev_listing exH ex_avail ex_pct ex_clock (XPar 2)
+  /\ fst (run_collect id_sh rev_listing exH ex_avail ex_pct ex_clock (XPar (Some 2%nat)) None 32%nat
                       (Some (ex_cfg (Store.Hybrid true 0) (Some 0)))
-                      (Some (overwrite_latest rev_listing (run_pid exH (XPar 2) ex_chain)
+                      (Some (overwrite_latest rev_listing (run_pid exH (XPar (Some 2%nat)) None 32%nat ex_chain)
                                               [253; 0; 0; 0; 0; 1; 0; 0; 0] ex_dir))
                       ex_term ex_chain)
      = exec_par id_sh ex_term ex_chain 2.
+Proof. vm_compute. repeat split; reflexivity. Qed.
+
+(* Parallel{partitions: None} on a partition-SENSITIVE program (every chunk of a partition reversed):
+   3 and 2 partitions give different results, the checkpointing branch follows the planner's
+   suggestion exactly like the plain branch *)
+Definition ex_sens_src : src := SrcVec TU (map VInt [1; 2; 3; 4; 5; 6]).
+Definition ex_sens : list step := [SMapBatches 100 BRevChunk].
+Example ex_partitions_none :
+  let chain := plan ex_sens_src ex_sens in
+  let term := term_tag ex_sens_src ex_sens in
+  exec_par id_sh term chain 3 = Ok (map VInt [2; 1; 4; 3; 6; 5])
+  /\ exec_par id_sh term chain 2 = Ok (map VInt [3; 2; 1; 6; 5; 4])
+  /\ fst (run_collect id_sh rev_listing exH ex_avail ex_pct ex_clock (XPar None) (Some 3%nat) 2%nat
+                      (Some (ex_cfg (Store.TimeInterval 0) None)) None term chain)
+     = Ok (map VInt [2; 1; 4; 3; 6; 5])
+  /\ fst (run_collect id_sh rev_listing exH ex_avail ex_pct ex_clock (XPar None) None 2%nat
+                      (Some (ex_cfg (Store.TimeInterval 0) None)) None term chain)
+     = Ok (map VInt [3; 2; 1; 6; 5; 4]).
 Proof. vm_compute. repeat split; reflexivity. Qed.
 
 (* c11_old_engine_fails_on_joins: the old witness (sequential mode + checkpointing + a join) *)
